@@ -9,8 +9,16 @@
 #include <poll.h>
 #include <sys/mman.h>
 #include <sys/stat.h>
+#include <sys/time.h>
 #include <sys/wait.h>
 #include <unistd.h>
+#include <execinfo.h>
+#if defined(__has_feature)
+#if __has_feature(address_sanitizer)
+#include <sanitizer/common_interface_defs.h>
+#define SIM_HAVE_SYMBOLIZER 1
+#endif
+#endif
 
 namespace sim {
 
@@ -266,15 +274,100 @@ static void classify_ubsan(const std::string &err, Violation &v)
     v.detail = msg;
 }
 
+// ---- where a run was when its watchdog expired.
+// The dying child writes the raw return addresses of its stack ("HANGPC ..."); the parent, whose address space the
+// child inherited, resolves them.  The site of a hang is the function through which the run entered the module it was
+// looping in: take the innermost library frame outside the general-purpose containers, then walk outwards while the
+// frames stay in the same source file.  That names fsg_model_null_trans_closure whether the sample fell in the loop
+// itself, in a helper of the same file or in a hash-table call below it.
+static void hang_handler(int sig)
+{
+    void *pcs[48];
+    int n = backtrace(pcs, 48);
+    char buf[48 * 20 + 16];
+    size_t o = 0;
+    memcpy(buf + o, "\nHANGPC", 8);
+    o += 8;
+    for (int i = 0; i < n; ++i) {
+        uintptr_t v = (uintptr_t)pcs[i];
+        buf[o++] = ' ';
+        for (int sh = 60; sh >= 0; sh -= 4)
+            buf[o++] = "0123456789abcdef"[(v >> sh) & 15];
+    }
+    buf[o++] = '\n';
+    if (write(2, buf, o) < 0) {}
+    signal(sig, SIG_DFL);
+    raise(sig);
+}
+
+static std::string hang_site(const std::string &err)
+{
+#ifdef SIM_HAVE_SYMBOLIZER
+    size_t a = err.rfind("HANGPC");
+    if (a == std::string::npos)
+        return "-";
+    size_t e = err.find('\n', a);
+    std::string line = err.substr(a + 6, e == std::string::npos ? std::string::npos : e - a - 6);
+    std::vector<std::pair<std::string, std::string>> frames; // (function, file basename), innermost first, library frames only
+    size_t p = 0;
+    int idx = 0;
+    while (p < line.size()) {
+        while (p < line.size() && line[p] == ' ')
+            ++p;
+        size_t q = line.find(' ', p);
+        std::string h = line.substr(p, q == std::string::npos ? std::string::npos : q - p);
+        p = q == std::string::npos ? line.size() : q;
+        if (h.empty())
+            break;
+        uintptr_t pc = (uintptr_t)strtoull(h.c_str(), nullptr, 16);
+        char out[4096];
+        memset(out, 0, sizeof out);
+        __sanitizer_symbolize_pc((void *)(pc - (idx > 2 ? 1 : 0)), "%f\t%s", out, sizeof out - 2);
+        ++idx;
+        for (const char *c = out; *c; c += strlen(c) + 1) { // one string per (inlined) frame
+            std::string fr = c;
+            size_t t = fr.find('\t');
+            if (t == std::string::npos)
+                continue;
+            std::string fn = fr.substr(0, t), file = fr.substr(t + 1);
+            if (file.find("/src/") == std::string::npos || file.find("/sim/") != std::string::npos)
+                continue;
+            size_t sl = file.rfind('/');
+            frames.emplace_back(fn, file.substr(sl + 1));
+        }
+    }
+    static const char *utility[] = { "hash_table.c", "glist.c", "listelem_alloc.c", "ckd_alloc.c", "err.c", "strfuncs.c", "logmath.c", "bitvec.c", "heap.c", "case.c", "filename.c", nullptr };
+    auto is_util = [&](const std::string &f) {
+        for (int i = 0; utility[i]; ++i)
+            if (f == utility[i])
+                return true;
+        return false;
+    };
+    size_t k = 0;
+    while (k < frames.size() && is_util(frames[k].second))
+        ++k;
+    if (k == frames.size())
+        return frames.empty() ? "-" : frames.back().first;
+    size_t m = k;
+    while (m + 1 < frames.size() && frames[m + 1].second == frames[k].second)
+        ++m;
+    return frames[m].first;
+#else
+    (void)err;
+    return "-";
+#endif
+}
+
 static void classify_death(int status, const std::string &err, Violation &v)
 {
     v.site = "-";
     v.detail = "";
     if (WIFSIGNALED(status)) {
         int sig = WTERMSIG(status);
-        if (sig == SIGALRM) {
+        if (sig == SIGALRM || sig == SIGPROF) {
             v.kind = "hang";
-            v.detail = "watchdog expired";
+            v.site = hang_site(err);
+            v.detail = "watchdog expired in " + v.site;
             return;
         }
         if (sig == SIGABRT) {
@@ -412,7 +505,8 @@ static size_t run_child(Exec &x, const std::vector<RunSpec> &specs, size_t from,
     if (pid == 0) {
         dup2(x.errfd, 2);
         dup2(x.devnull, 1);
-        signal(SIGALRM, SIG_DFL);
+        signal(SIGALRM, hang_handler);
+        signal(SIGPROF, hang_handler);
         signal(SIGPIPE, SIG_IGN);
         for (size_t k = from; k < specs.size(); ++k) {
             const RunSpec &sp = specs[k];
@@ -422,7 +516,15 @@ static size_t run_child(Exec &x, const std::vector<RunSpec> &specs, size_t from,
             x.sh->cur_op = -1;
             x.sh->note[0] = 0;
             x.sh->phase = 1;
-            alarm((unsigned)x.w->watchdog_s(x.prop));
+            // the watchdog counts the run's own processor time (the library never blocks: all its I/O is simulated), so a
+            // loaded machine cannot turn a slow run into a "hang"; the wall-clock alarm is only a distant backstop
+            {
+                struct itimerval it;
+                memset(&it, 0, sizeof it);
+                it.it_value.tv_sec = x.w->watchdog_s(x.prop);
+                setitimer(ITIMER_PROF, &it, nullptr);
+                alarm((unsigned)x.w->watchdog_s(x.prop) * 20);
+            }
             Json gen;
             const Json *plan = sp.plan;
             if (!plan) {
@@ -438,6 +540,11 @@ static size_t run_child(Exec &x, const std::vector<RunSpec> &specs, size_t from,
             ctx.note = x.sh->note;
             x.w->execute(*plan, ctx);
             alarm(0);
+            {
+                struct itimerval it;
+                memset(&it, 0, sizeof it);
+                setitimer(ITIMER_PROF, &it, nullptr);
+            }
             x.sh->phase = 2;
             uint64_t pd = fnv1a(plan->dump());
             write_all(out_fd, outcome_line(sp, pd, out, sp.want_plan ? plan : nullptr));
@@ -1277,6 +1384,10 @@ static void usage()
 
 int main(int argc, char **argv)
 {
+    {
+        void *warm[2];
+        (void)backtrace(warm, 2); // loads the unwinder now, so that the watchdog handler does not allocate
+    }
     setvbuf(stdout, nullptr, _IOLBF, 0);
     signal(SIGPIPE, SIG_IGN);
     if (argc < 2) {
